@@ -6,7 +6,7 @@
    load_modules_for_program + the entry's top level; its result lists, oldest first, every top
    level that ran (ev_file) with what it could name.  The theorems hold for EVERY tree: nested
    directories, repeated file names, one file under several dotted paths, `needs mod.symbol`. *)
-From Aelys Require Import Base.Tactics Model.Modules Model.ModulesSpec Proofs.ModulesProofs.
+From Aelys Require Import Base.Tactics Extracted.ModulesTables Model.Modules Model.ModulesSpec Proofs.ModulesProofs.
 Local Open Scope N_scope.
 
 (* the DFS never runs out of fuel: fuel = number of files + 2 *)
@@ -21,6 +21,14 @@ Theorem C19_init_once : forall fs entry fuel evs,
   NoDup tr /\ (forall f, In f tr <-> reachable fs entry f) /\ postorder fs entry tr /\
   (exists l, tr = l ++ [entry]).
 Proof. exact init_once_lemma. Qed.
+
+(* ... and when the run ends in an error, what had run until then ran at most once, is reachable,
+   and ran after its dependencies *)
+Theorem C19_at_most_once_on_error : forall fs entry fuel e tr,
+  run fs entry fuel = Err e tr ->
+  let t := map ev_file tr in
+  NoDup t /\ (forall f, In f t -> reachable fs entry f) /\ postorder fs entry t.
+Proof. exact at_most_once_on_error_lemma. Qed.
 
 (* a reachable cycle of any length, however its imports are spelled, is an error: never a
    completed run and never out of fuel *)
@@ -49,20 +57,38 @@ Theorem C19_visibility_compile_time : forall fs entry fuel evs,
   names_ok fs entry ev /\ selected_are_pub fs entry (ev_file ev).
 Proof. exact visibility_lemma. Qed.
 
-(* hence only pub names leak: a bare name known to a top level is its own definition or a pub
-   definition of a module one of its imports means *)
+(* hence only pub names leak: a bare name known to a top level is its own definition or a
+   definition MARKED pub in a module one of its imports means (which statements export, and under
+   which guard, is taken from collect_exports by the translator) *)
 Theorem C19_only_pub_names : forall fs entry fuel evs,
   run fs entry fuel = Ok evs -> forall ev m, In ev evs ->
   find_file fs (ev_file ev) = Some m -> no_std_imports m -> nonempty_symbols m ->
   forall n, In n (ev_known ev) ->
     In n (map d_name (m_defs m)) \/
-    exists j g fm mg, In j (m_imports m) /\ meaning fs (dir_of entry) (ev_file ev) j = Some (g, fm) /\
-                      find_file fs g = Some mg /\ In n (pub_names mg).
+    exists j g fm mg d, In j (m_imports m) /\ meaning fs (dir_of entry) (ev_file ev) j = Some (g, fm) /\
+                        find_file fs g = Some mg /\ In d (m_defs mg) /\ d_name d = n /\ d_pub d = true.
 Proof. exact known_are_pub_lemma. Qed.
+
+Theorem C19_exports_are_pub : forall m n, In n (pub_names m) <->
+  exists d, In d (m_defs m) /\ d_name d = n /\ d_pub d = true.
+Proof. exact pub_names_pub. Qed.
 
 (* a qualified spelling is accepted only for a qualifier an import grants *)
 Theorem C19_qualifier_exact : forall ev q n, ~ In q (ev_aliases ev) -> probe ev (SQual q n) = None.
 Proof. exact qualifier_exact_lemma. Qed.
+
+(* values: a top level reads, under every spelling, exactly the definition the documented semantics
+   grants -- "importers observe the values it produced" -- for names defined by one file and
+   qualifiers that always denote one file (sp_guard; both are necessary: the two refutations below
+   violate one each).  C19_value_guards_decidable: boolean sufficient checks for the guards. *)
+Theorem C19_values_observed : forall fs entry fuel evs,
+  run fs entry fuel = Ok evs -> forall ev, In ev evs -> values_ok fs entry ev.
+Proof. exact values_lemma. Qed.
+
+Theorem C19_value_guards_decidable : forall fs root,
+  (unique_defs fs = true -> forall n, name_unique fs n) /\
+  (quals_ok_b fs root = true -> forall q, qual_ok fs root q).
+Proof. intros fs root. split; [apply unique_defs_sound | apply quals_ok_sound]. Qed.
 
 (* ---- still false of the loader: the single VM namespace (open findings KF-C19-3, KF-C19-8).
         Which VALUE a granted spelling reads is therefore not what the exporting module produced. *)
@@ -101,7 +127,7 @@ Proof. exact repaired_examples_lemma. Qed.
 (* the hypotheses are satisfiable by non-trivial trees: a diamond with every import form runs in
    post-order; a cycle of length 6 behind a tail is CircularDependency; both are clean *)
 Example C19_nonvacuous :
-  clean_b w_diamond [] = true /\
+  clean_b w_diamond [] = true /\ unique_defs w_diamond = true /\ quals_ok_b w_diamond [] = true /\
   (exists evs, run w_diamond E9 (fuel_bound w_diamond) = Ok evs /\
                map ev_file evs = [[19]; [10]; [11]; [12]; [9]]) /\
   clean_b w_cycle6 [] = true /\
